@@ -165,7 +165,10 @@ def main():
             continue
         tech, text, note, ref = CLAIMED[pid]
         if pid in SHARED:
-            tech += "; shared necessary-condition lints over the property's packages: " + SHARED[pid] + " (DESIGN.md 3.6)"
+            extra = SHARED[pid]
+            if pid not in ("C18", "C19"):
+                extra += ", ignored observations, error propagation, rotation without temporary, dead accumulators"
+            tech += "; shared necessary-condition lints over the property's packages: " + extra + " (DESIGN.md 3.6)"
         checks.append({
             "property_id": pid,
             "quick_cmd": "./check.sh %s quick" % pid,
@@ -201,7 +204,7 @@ def main():
         }],
         "checks": checks,
         "not_applicable": na,
-        "notes": "Technique family: static analysis only; no repository code is executed by any check. Known findings: /verif/known_findings.json. Seeded mutants: /verif/seeded/. Rules were also exercised against 220 behaviour-preserving edits (DESIGN.md 7.3).",
+        "notes": "Technique family: static analysis only; no repository code is executed by any check. Known findings: /verif/known_findings.json. Seeded mutants: /verif/seeded/. Rules were also exercised against 320 behaviour-preserving edits and 120 property-preserving feature commits (DESIGN.md 7.3).",
     }
     json.dump(m, open("/verif/MANIFEST.json", "w"), indent=1)
     # validate
